@@ -568,7 +568,7 @@ def generate_cluster_script(
     i_node_dict = {
         'sge': "$SGE_TASK_ID",
         'slurm': "$SLURM_ARRAY_TASK_ID",
-        'pbs': "PBS_ARRAY_INDEX"
+        'pbs': "$PBS_ARRAY_INDEX"
     }
     job_id_dict = {
         'sge': '${JOB_ID}',
